@@ -153,6 +153,16 @@ fn run_vectors(path: &str, out: &str) {
                 r.cmp(fresh_w(&e.write_states[0]), v.id, pn, kn, "write-leaves-fresh", || e.write_states[0].clone());
                 r.cmp(e.guard_ok, v.id, pn, kn, "guard", || json!("bytes behind the exact-size buffer were modified or index > size"));
                 zc_nodes += e.nodes;
+                // the round trip itself: what THIS writer put on THIS buffer, read back by the matching reader
+                let mut back = e.bytes.clone();
+                back.extend_from_slice(&TRAILER);
+                let d = decode_seq(p, &back, &[v.t, 3], false);
+                let want = v.v.erase(p == Proto::Compact);
+                match &d.err {
+                    Some(err) => r.bad(v.id, pn, kn, "rt-dec-err", json!(err)),
+                    None => r.cmp(d.values[0] == want && d.ends[0] == e.bytes.len() && d.values[1] == Tree::I8(0x5a), v.id, pn, kn, "rt-value",
+                                  || json!({"got": d.values[0].to_json(), "consumed": d.ends[0], "written": e.bytes.len()})),
+                }
             }
             let want = v.v.erase(p == Proto::Compact);
             for (form, enc) in inputs(v, p) {
